@@ -86,6 +86,13 @@ def mf_harness(fam, clause):
                 ex.check(rle(fy, fx), "mf_%s:not-monotone-falling" % fam)
                 ex.check(z3.Implies(R(x) <= R(a), R(fx) == 1), "mf_%s:left-of-the-ramp-is-not-one" % fam)
                 ex.check(z3.Implies(R(x) >= R(b), R(fx) == 0), "mf_%s:right-of-the-ramp-is-not-zero" % fam)
+        elif clause == "core":
+            # exactly one on the (closed) core [b, c], zero-width flanks included: the core cases of the documented list do not overlap with
+            # each other, only with the end of a zero-width flank, where the shoulder value 1 is what the piecewise shape gives from inside
+            p = params(ex, fam, strict=False)
+            x = ex.fresh_real("x")
+            ex.assume(conj([rle(p[1], x), rle(x, p[2])]))
+            ex.check(req(call(x, p), ONE), "mf_%s:core-is-not-one-(zero-width-flank-allowed)" % fam)
         elif clause == "complement":
             # S + Z = 1 and lins + linz = 1 for the same parameters
             other = {"s": "z", "lins": "linz"}[fam]
@@ -217,7 +224,7 @@ def main():
     for fam in ("trap", "tri", "lins", "linz", "s", "z", "pi"):
         inst.append(("mf", fam, "shape"))
         inst.append(("mf", fam, "continuity"))
-    inst += [("mf", "s", "complement"), ("mf", "lins", "complement")]
+    inst += [("mf", "s", "complement"), ("mf", "lins", "complement"), ("mf", "trap", "core"), ("mf", "pi", "core")]
     for o in ("cap", "cap_algebra", "cap_bounded", "cup", "cup_algebra", "cup_bounded", "equ"):
         inst.append(("opr", o))
     for opr in fuzzyctl.OPRS:
